@@ -1,0 +1,154 @@
+//go:build verif
+
+package oxia
+
+import (
+	"context"
+	"sync"
+	"time"
+
+	"go.opentelemetry.io/otel/metric/noop"
+	"go.uber.org/multierr"
+
+	commonbatch "github.com/oxia-db/oxia/oxia/batch"
+	"github.com/oxia-db/oxia/oxia/internal"
+	"github.com/oxia-db/oxia/oxia/internal/batch"
+	"github.com/oxia-db/oxia/oxia/internal/metrics"
+	"github.com/oxia-db/oxia/oxia/internal/model"
+	"github.com/oxia-db/oxia/proto"
+)
+
+// Verification hooks for the client batching / fan-out code (add-only, build tag verif).
+// Re-exports of oxia/internal/* (a separate module cannot import internal packages) and thin
+// entry points to unexported functions. No logic of its own beyond wiring fakes.
+
+type (
+	VerifPutCall         = model.PutCall
+	VerifDeleteCall      = model.DeleteCall
+	VerifDeleteRangeCall = model.DeleteRangeCall
+	VerifGetCall         = model.GetCall
+	VerifStreamWrapper   = internal.VerifStreamWrapper
+)
+
+func VerifNewWriteBatch(shardId int64, maxByteSize int, requestTimeout time.Duration,
+	execute func(context.Context, *proto.WriteRequest) (*proto.WriteResponse, error)) commonbatch.Batch {
+	return batch.VerifNewWriteBatch(shardId, maxByteSize, requestTimeout, execute)
+}
+
+func VerifNewReadBatch(shardId int64, requestTimeout time.Duration,
+	execute func(context.Context, *proto.ReadRequest) (proto.OxiaClient_ReadClient, error)) commonbatch.Batch {
+	return batch.VerifNewReadBatch(shardId, requestTimeout, execute)
+}
+
+func NewVerifStreamWrapper(stream proto.OxiaClient_WriteStreamClient, onExit func(which string, panicked any)) *VerifStreamWrapper {
+	return internal.NewVerifStreamWrapper(stream, onExit)
+}
+
+// VerifAggregateAndSort is aggregateAndSortRangeScanAcrossShards.
+func VerifAggregateAndSort(channels []chan GetResult, outCh chan GetResult) {
+	aggregateAndSortRangeScanAcrossShards(channels, outCh)
+}
+
+// ---- fakes used to run clientImpl methods without a network ----
+
+type verifShardManager struct {
+	shards []int64
+	route  func(key string) int64
+}
+
+func (*verifShardManager) Close() error           { return nil }
+func (m *verifShardManager) Get(key string) int64 { return m.route(key) }
+func (m *verifShardManager) GetAll() []int64      { return append([]int64(nil), m.shards...) }
+func (*verifShardManager) Leader(int64) string    { return "verif" }
+
+// recordingBatcher only records the calls added to it.
+type recordingBatcher struct {
+	mu    *sync.Mutex
+	calls *[]any
+}
+
+func (*recordingBatcher) Close() error { return nil }
+func (*recordingBatcher) Run()         {}
+func (b *recordingBatcher) Add(call any) {
+	b.mu.Lock()
+	defer b.mu.Unlock()
+	*b.calls = append(*b.calls, call)
+}
+
+// VerifMultiShardGet runs the real doMultiShardGet over the given shard ids with read batchers that
+// only record the GetCall handed to them. The harness then invokes the returned calls' Callback
+// (the closure built by doMultiShardGet) in the arrival order it wants to exercise.
+func VerifMultiShardGet(key string, shards []int64, opts ...GetOption) (<-chan GetResult, []VerifGetCall) {
+	var mu sync.Mutex
+	var calls []any
+	c := &clientImpl{
+		shardManager: &verifShardManager{shards: shards, route: func(string) int64 { return shards[0] }},
+		readBatchManager: batch.NewManager(context.Background(), func(context.Context, *int64) commonbatch.Batcher {
+			return &recordingBatcher{mu: &mu, calls: &calls}
+		}),
+	}
+	ch := make(chan GetResult)
+	c.doMultiShardGet(key, newGetOptions(opts), ch)
+	res := make([]VerifGetCall, 0, len(calls))
+	for _, x := range calls {
+		if gc, ok := x.(model.GetCall); ok {
+			res = append(res, gc)
+		}
+	}
+	return ch, res
+}
+
+// VerifExecutor is an internal.Executor whose four methods are supplied by the harness.
+type VerifExecutor struct {
+	Write     func(context.Context, *proto.WriteRequest) (*proto.WriteResponse, error)
+	Read      func(context.Context, *proto.ReadRequest) (proto.OxiaClient_ReadClient, error)
+	List      func(context.Context, *proto.ListRequest) (proto.OxiaClient_ListClient, error)
+	RangeScan func(context.Context, *proto.RangeScanRequest) (proto.OxiaClient_RangeScanClient, error)
+}
+
+func (e *VerifExecutor) ExecuteWrite(ctx context.Context, r *proto.WriteRequest) (*proto.WriteResponse, error) {
+	return e.Write(ctx, r)
+}
+func (e *VerifExecutor) ExecuteRead(ctx context.Context, r *proto.ReadRequest) (proto.OxiaClient_ReadClient, error) {
+	return e.Read(ctx, r)
+}
+func (e *VerifExecutor) ExecuteList(ctx context.Context, r *proto.ListRequest) (proto.OxiaClient_ListClient, error) {
+	return e.List(ctx, r)
+}
+func (e *VerifExecutor) ExecuteRangeScan(ctx context.Context, r *proto.RangeScanRequest) (proto.OxiaClient_RangeScanClient, error) {
+	return e.RangeScan(ctx, r)
+}
+
+// NewVerifClient wires a clientImpl exactly as NewAsyncClient does (real batch managers, batcher
+// factory, batchers and batches) but over the given executor and a fixed shard list; sessions,
+// notifications and the connection pool are absent (do not use ephemeral puts or Close()).
+// The returned function closes the batch managers and cancels the client context.
+func NewVerifClient(shards []int64, route func(key string) int64, exec *VerifExecutor, linger time.Duration,
+	maxRequestsPerBatch int, maxBatchSize int, requestTimeout time.Duration) (AsyncClient, func() error) {
+	ctx, cancel := context.WithCancel(context.Background())
+	options := clientOptions{
+		namespace:           DefaultNamespace,
+		batchLinger:         linger,
+		maxRequestsPerBatch: maxRequestsPerBatch,
+		maxBatchSize:        maxBatchSize,
+		requestTimeout:      requestTimeout,
+		identity:            "verif",
+	}
+	batcherFactory := batch.NewBatcherFactory(exec, options.namespace, options.batchLinger, options.maxRequestsPerBatch,
+		metrics.NewMetrics(noop.NewMeterProvider()), options.requestTimeout)
+	c := &clientImpl{
+		options:      options,
+		shardManager: &verifShardManager{shards: shards, route: route},
+		writeBatchManager: batch.NewManager(ctx, func(ctx context.Context, shard *int64) commonbatch.Batcher {
+			return batcherFactory.NewWriteBatcher(ctx, shard, options.maxBatchSize)
+		}),
+		readBatchManager: batch.NewManager(ctx, batcherFactory.NewReadBatcher),
+		executor:         exec,
+	}
+	c.ctx, c.cancel = ctx, cancel
+	return c, func() error {
+		err := multierr.Combine(c.writeBatchManager.Close(), c.readBatchManager.Close())
+		c.cancel()
+		return err
+	}
+}
